@@ -13,8 +13,8 @@
 (***************************************************************************)
 EXTENDS Ats
 
-CONSTANT Native   \* TRUE when every bid in the scenario was created by this contract version
-                  \* (pro-rata and quote-consistency invariants are promised for those only)
+\* Parameter `native` of the state clauses: TRUE when every bid in the book was created by this
+\* contract version (the pro-rata and quote-consistency invariants are promised for those only).
 
 -----------------------------------------------------------------------------
 (* Fund movements of a step, as net change per (account, denomination) *)
@@ -392,8 +392,8 @@ C09Step(pre, env, req, resp, post) ==
      ELSE {}
    ELSE {})
 
-C09State(S) ==
-  If(Native => \A k \in DOMAIN S.bids :
+C09State(S, native) ==
+  If(native => \A k \in DOMAIN S.bids :
         LET b == S.bids[k] IN
         (b.fmt = "v3" /\ b.fee.some) => (b.fee.amt - b.af) \in ProRataSet(b.fee.amt, b.qamt - b.aq, b.qamt),
      "C09.prorata")
@@ -440,9 +440,9 @@ C11Step(pre, env, req, resp, post) ==
   \cup If((req.kind \in AskKinds \cup BidKinds \cup {"execute_match"})
              => (post.cfg = pre.cfg /\ post.ver = pre.ver), "C11.frame_cfg_ver")
 
-C11State(S) ==
+C11State(S, native) ==
   LET cfg == S.cfg IN
-       If(Native => \A k \in DOMAIN S.bids : LET b == S.bids[k] IN
+       If(native => \A k \in DOMAIN S.bids : LET b == S.bids[k] IN
              b.fmt = "v3" => (Integral(b.price, b.size - b.ab) /\ b.qamt - b.aq = Times(b.price, b.size - b.ab)),
           "C11.quote_consistent")
   \cup If(/\ \A k \in DOMAIN S.asks : LET a == S.asks[k] IN
@@ -500,8 +500,8 @@ C12(pre, env, req, resp, post) ==
    ELSE {})
 
 \* the rate that applied when a bid was placed still applies while it is open
-C12State(S, frozen) ==
-  If((frozen /\ Native) => \A k \in DOMAIN S.bids : LET b == S.bids[k] IN
+C12State(S, frozen, native) ==
+  If((frozen /\ native) => \A k \in DOMAIN S.bids : LET b == S.bids[k] IN
         b.fmt = "v3" => (IF b.fee.some THEN b.fee.amt ELSE 0) = BidFeeDue(S.cfg, b.qamt),
      "C12.rate_at_admission")
 
@@ -722,6 +722,6 @@ StepClauses(pre, env, req, resp, post) ==
   \cup C15(pre, env, req, resp, post) \cup C16(pre, env, req, resp, post) \cup C17(pre, env, req, resp, post)
 
 \* `frozen`: no migration has overridden a fee since the open bids were placed
-StateClauses(S, frozen) ==
-  C08State(S) \cup C09State(S) \cup C11State(S) \cup C12State(S, frozen) \cup C13State(S)
+StateClauses(S, frozen, native) ==
+  C08State(S) \cup C09State(S, native) \cup C11State(S, native) \cup C12State(S, frozen, native) \cup C13State(S)
 =============================================================================
